@@ -103,15 +103,41 @@ def sortKey (k : ColKind) (desc : Bool) (col : List Cell) : List Cell :=
   let isInteger := if rankedNow then true else isInteger
   if !desc then col2 else col2.map (invertKey isInteger)
 
+/-! Specification order of one sort key (what the property states):
+    ascending: by value, missing last; descending: by value reversed, the missing values
+    together at one end — first when `sort_key` ranks the column (strings, booleans, dates,
+    objects), last when it negates a numeric column (floats, timedeltas). -/
+
+/-- descending order of a numeric column whose missing value stays last. -/
+def descNaLast : Cell → Cell → Bool
+  | some a, some b => ltNaLast Key.le (some b) (some a)
+  | some _, none => true
+  | none, _ => false
+
+/-- does `sort_key` rank this column at some point? -/
+def rankedKey (k : ColKind) (col : List Cell) : Bool :=
+  (k.isString && col.any isNa) || !k.isNumber
+
+def specLt (k : ColKind) (desc : Bool) (col : List Cell) : Cell → Cell → Bool :=
+  if !desc then ltNaLast Key.le
+  else if rankedKey k col then (fun a b => ltNaLast Key.le b a)
+  else descNaLast
+
 /-- lexicographic `≤` over row tuples of key cells, missing last (`np.lexsort` treats NaN / NaT
     as largest; all other key columns have no missing values by construction). -/
 def leLex : List Cell → List Cell → Bool
   | [], _ => true
-  | _ :: _, [] => true
+  | _ :: _, [] => false
   | a :: as, b :: bs =>
     if ltNaLast Key.le a b then true
     else if ltNaLast Key.le b a then false
     else leLex as bs
+
+/-- Specification: lexicographic `≤` of rows under per-column strict orders. -/
+def leLexBy : List (Cell → Cell → Bool) → List Cell → List Cell → Bool
+  | lt :: lts, a :: as, b :: bs =>
+    if lt a b then true else if lt b a then false else leLexBy lts as bs
+  | _, _, _ => true
 
 /-- `np.lexsort(keys reversed)`: stable, first key primary. -/
 def lexsortIdx (n : Nat) (keys : List (List Cell)) : List Nat :=
